@@ -10,18 +10,37 @@
   (b) PROGRESS AND TERMINATION.  `ruleAtH_progress`: every member of the extended chain, called as the
       tokenizer (or the look-ahead) calls it, never runs out of fuel, and a rule that fires leads the
       tokenizer strictly forward; `htmlRule_fires`: a firing html rule consumes `≥ 1` byte, stays
-      inside `pos_max` and ends on a character boundary (for the link rule: `ruleAtH_bounds`, part (c));
+      inside `pos_max` and ends on a character boundary; `ruleAtH_bounds_link`: so does the link / image rule
+      (the other rules: `Props/Inline.lean` `inline_rule_progress_<rule>`, they do not see the callees);
+      `silent_ruleH_calm`: a look-ahead call changes nothing but the memo and the code-span cache;
       `tokenizeH_progress`: one loop iteration strictly increases `pos`; `fuel_sufficesH`,
       `parseInlineH_fuel`: the fuel `(posMax - pos + 2) * (maxNesting - level + 1)` suffices, the driver's
       `topFuel` is enough — `parseInlineH` never answers `Panic.fuel`.
-  (c) GUARDED NO-PANIC and (e) LOOK-AHEAD = REAL: see the second half of this file.
+  (c) GUARDED NO-PANIC.  `guarded_no_panicH`, `guarded_skip_no_panicH`, `parseInlineHG_no_panic`: the
+      tokenizer with the html rule and a GUARDED memo (`Lemmas/InlineHTotal.lean`: `tokLoopH` / `skipTokenH`
+      with one extra test — a memo hit with `pos_max < stored end` stops the run) NEVER returns a Rust
+      panic: every chain over the extended enumeration (html anywhere, with or without autolink, any
+      order, repetitions), every `max_nesting`, every reference map, every content with a `MapOK` table;
+      emphasis markers single bytes; SIZE BOUND `2 * len + max_nesting < 2^31 - 1` (the content is
+      shorter than 1 GiB), which keeps `link_level` strictly inside `i32` at every call of the html rule
+      through the state invariant `LLPos` (`|link_level| ≤ 2 * pos + level`).  `parseInlineHG_agree` the
+      guarded run and the model run give the same result unless the guard trips; hence
+      `parseInlineH_panic_memo_only` (a panic of `parseInlineH` is a memo hit beyond `pos_max`),
+      `parseInlineH_total_of_memoSafeH` (executable check, `decide +kernel`), `parseInlineH_ok_or_guard`;
+      `parseInlineH_total_flat`: UNCONDITIONAL totality for every chain without the link / image rules.
+      `ruleAtH_bounds`: what a firing rule leaves (extent on a boundary inside `pos_max`, state good).
+  (e) LOOK-AHEAD = REAL for the html member: `htmlRule_silent_real`, `htmlRule_real_silent`,
+      `htmlRule_window` (the verdict is a function of the window), `chain_html_silent_real` (over the
+      chain: when the rules in front of the html rule decline in both chains, the real chain answers
+      what the look-ahead chain answered).
+  (d) OPEN: `parseInlineH_total` — see the end of the file.
 
   `link_level`.  Every contract of the html-free development (`Inline.Frame`) says `linkLevel` is
   unchanged; with the html rule that is false in real mode, even for the LINK rule (`[<a>](u)` leaves
   `link_level = 1`).  The contracts here use `FrameL` (= `Frame` minus `linkLevel`); how the per-rule
   lemmas are nevertheless reused verbatim is explained in `Lemmas/InlineH.lean` (`resetLL`).
 -/
-import MdIt.Lemmas.InlineH
+import MdIt.Lemmas.InlineHTotal
 
 namespace MdIt.InlineH
 open MdIt.Inline
@@ -99,19 +118,6 @@ theorem ruleAtH_progress (cfg : Cfg) (chain : List RuleIdH) (f : Nat) (id : Rule
     rw [e, need] at hf
     exact Nat.le_trans (need_mono hw _) (by omega)
 
-/-- **(b) the html member.**  Called as the tokenizer calls it (window non-empty, on boundaries,
-    well-formed table) with `link_level` strictly inside `i32`, the rule does not panic, and when it fires
-    it consumes at least one byte, stays inside `pos_max` and ends on a character boundary. -/
-theorem htmlRule_fires {st : IState} (hi : InlineInv st) (silent : Bool)
-    (hll : Html.i32Min < st.linkLevel ∧ st.linkLevel < Html.i32Max) :
-    ∃ o st', htmlRule st silent = .ok (o, st') ∧ Advances st o := by
-  obtain ⟨o, s1, nd, h, hadv⟩ := Html.inline_rule_progress_html hi silent hll
-  unfold htmlRule
-  rw [h]
-  cases nd with
-  | none => exact ⟨_, _, rfl, hadv⟩
-  | some n => exact ⟨_, _, rfl, hadv⟩
-
 /-- **(b) Progress of one tokenizer iteration.** -/
 theorem tokenizeH_progress (cfg : Cfg) (chain : List RuleIdH) (f : Nat) (st : IState) (hm : MemoInv st)
     (hf : need (st.posMax - st.pos) (cfg.maxNesting - st.level) ≤ f + 1) :
@@ -136,6 +142,46 @@ theorem tokenizeH_progress (cfg : Cfg) (chain : List RuleIdH) (f : Nat) (st : IS
   · exact hm
   · omega
   · omega
+
+/-- `skip_token` of the model is calm (children, `OpenersBottom`, frame incl. `link_level` unchanged) -/
+theorem skipTokenH_calm (cfg : Cfg) (chain : List RuleIdH) (f : Nat) :
+    CalmFn (fun s => skipTokenH cfg chain f s) := by
+  have h := skipTokenHG_calm cfg chain false f
+  have e : (fun s => skipTokenHG cfg chain false f s) = (fun s => skipTokenH cfg chain f s) :=
+    funext (HG_false cfg chain f).2
+  rw [e] at h
+  exact h
+
+/-- **(b) the extent of the link / image rule** over the model's `skip_token` with the html rule, in
+    either mode, at any fuel, no hypothesis on the state: the position the tokenizer continues from
+    after a successful call is a character boundary `≤ pos_max` (with `ruleAtH_progress`: `pos <` it). -/
+theorem ruleAtH_bounds_link (cfg : Cfg) (chain : List RuleIdH) (f : Nat) (st : IState) (silent : Bool)
+    (image : Bool) {len : Nat} {st' : IState}
+    (h : ruleAtH cfg chain f (.base (if image then .image else .link)) st silent = .ok (some len, st')) :
+    st'.pos + len ≤ st.posMax ∧ Boundary st.src (st'.pos + len) := by
+  unfold ruleAtH runRuleH runRule at h
+  cases image
+  · simp only [Bool.false_eq_true, if_false] at h
+    unfold ruleLink at h
+    split at h
+    · simp at h
+    · simp at h
+    · split at h
+      · simp at h
+      · exact linkRule_bounds (skipTokenH_calm cfg chain f) h
+  · simp only [if_true] at h
+    unfold ruleImage at h
+    split at h
+    · simp at h
+    · exact linkRule_bounds (skipTokenH_calm cfg chain f) h
+    · simp at h
+
+/-- **(b) a look-ahead call of ANY member of the extended chain is calm**: children, `OpenersBottom`,
+    `src`, `srcmap`, `posMax`, `level`, `linkLevel` unchanged (what may change: the memo and the
+    code-span cache) -/
+theorem silent_ruleH_calm (cfg : Cfg) (chain : List RuleIdH) (f : Nat) (id : RuleIdH) {st st' : IState}
+    {o : Option Nat} (h : ruleAtH cfg chain f id st true = .ok (o, st')) : Calm st st' :=
+  runRuleH_silent_calm (skipTokenH_calm cfg chain f) h
 
 /-- **(b) Fuel suffices.**  `tokenizeH` does not run out of fuel. -/
 theorem fuel_sufficesH (cfg : Cfg) (chain : List RuleIdH) (fuel : Nat) (st : IState) (hm : MemoInv st)
@@ -166,5 +212,513 @@ theorem parseInlineH_fuel (cfg : CfgH) (content : List Char) (mapping : Srcmap) 
   split at hc
   · next e he => simp only [Except.error.injEq] at hc; subst hc; exact h.noFuel he
   · simp at hc
+
+/-! ## (c) the guarded tokenizer never panics -/
+
+/-- the html-free part of the chain of a `CfgH` is the chain of its `base` -/
+theorem base_mem {cfg : CfgH} {r : RuleId} (h : RuleIdH.base r ∈ cfg.chain) : r ∈ cfg.base.chain := by
+  show r ∈ cfg.chain.filterMap RuleIdH.base?
+  exact List.mem_filterMap.mpr ⟨_, h, rfl⟩
+
+theorem mem_base {cfg : CfgH} {r : RuleId} (h : r ∈ cfg.base.chain) : RuleIdH.base r ∈ cfg.chain := by
+  obtain ⟨a, ha, hr⟩ := List.mem_filterMap.mp (show r ∈ cfg.chain.filterMap RuleIdH.base? from h)
+  cases a with
+  | base r' => simp only [RuleIdH.base?, Option.some.injEq] at hr; rw [← hr]; exact ha
+  | html => simp [RuleIdH.base?] at hr
+
+/-- **(c) No Rust panic of the guarded tokenizer with the html rule**, from every good state (`Good`:
+    window on boundaries, `MapOK` table, `EntStop`, range invariant, `OpenersBottom` tables of length 6)
+    with a sound memo (`MemoB`), `|link_level| ≤ 2 * pos + level` (`LLPos`) and a text within the size
+    bound (`SizeOK`: `2 * len + max_nesting < 2^31 - 1`), at every fuel: the result is a state — again
+    good, same frame up to `link_level`, invariant kept — or the non-Rust outcome (`Panic.fuel`: out of
+    fuel, or the guard tripped). -/
+theorem guarded_no_panicH (cfg : Cfg) (chain : List RuleIdH)
+    (hsz : ∀ mk csw, RuleId.emph mk csw ∈ cfg.chain → mk.utf8Size = 1)
+    (hall : ∀ r, RuleIdH.base r ∈ chain → r ∈ cfg.chain) (fuel : Nat) {lo : Nat}
+    (st : IState) (hg : Good lo st) (hm : MemoB st) (hll : LLPos st) (hsize : SizeOK cfg st.src) :
+    NoRust (tokLoopHG cfg chain true fuel st.posMax st) ∧
+    ∀ st', tokLoopHG cfg chain true fuel st.posMax st = .ok st' →
+      FrameL st st' ∧ MemoB st' ∧ Good lo st' ∧ LLPos st' :=
+  ⟨((guarded_totalH cfg chain hsz hall fuel).2 lo st hg hm hll hsize).noRust,
+   ((guarded_totalH cfg chain hsz hall fuel).2 lo st hg hm hll hsize).ok⟩
+
+/-- the same for the guarded `skip_token` (look-ahead): from every state whose window lies in the text
+    on boundaries (`LInv`); no hypothesis on `link_level` (the html rule is pure in look-ahead mode) -/
+theorem guarded_skip_no_panicH (cfg : Cfg) (chain : List RuleIdH)
+    (hsz : ∀ mk csw, RuleId.emph mk csw ∈ cfg.chain → mk.utf8Size = 1)
+    (hall : ∀ r, RuleIdH.base r ∈ chain → r ∈ cfg.chain) (fuel : Nat)
+    (st : IState) (hi : LInv st) (hlt : st.pos < st.posMax) :
+    NoRust (skipTokenHG cfg chain true fuel st) ∧
+    ∀ st', skipTokenHG cfg chain true fuel st = .ok st' →
+      MemoB st' ∧ st.pos < st'.pos ∧ st'.pos ≤ st.posMax ∧ Boundary st.src st'.pos :=
+  ⟨((guarded_totalH cfg chain hsz hall fuel).1 st hi hlt).noRust,
+   ((guarded_totalH cfg chain hsz hall fuel).1 st hi hlt).ok⟩
+
+/-- **(c) what a firing rule leaves**, any member of the extended chain in real mode over the guarded
+    callees: no Rust panic, and on `Some(len)` the position the tokenizer continues from is a character
+    boundary `≤ pos_max`, strictly behind `pos`; the state is good again. -/
+theorem ruleAtH_bounds (cfg : Cfg) (chain : List RuleIdH)
+    (hsz : ∀ mk csw, RuleId.emph mk csw ∈ cfg.chain → mk.utf8Size = 1)
+    (hall : ∀ r, RuleIdH.base r ∈ chain → r ∈ cfg.chain) (f : Nat) {id : RuleIdH} (hid : id ∈ chain)
+    {lo : Nat} (st : IState) (hg : Good lo st) (hm : MemoB st) (hlt : st.pos < st.posMax)
+    (hll : LLPos st) (hsize : SizeOK cfg st.src) (hlev : st.level < cfg.maxNesting) :
+    NoRust (runRuleH cfg (fun s => skipTokenHG cfg chain true f s)
+      (fun s => tokLoopHG cfg chain true f s.posMax s) f id st false) ∧
+    ∀ len st', runRuleH cfg (fun s => skipTokenHG cfg chain true f s)
+        (fun s => tokLoopHG cfg chain true f s.posMax s) f id st false = .ok (some len, st') →
+      st.pos < st'.pos + len ∧ st'.pos + len ≤ st.posMax ∧ Boundary st.src (st'.pos + len) ∧
+      Good lo { st' with pos := st'.pos + len } := by
+  have ht : TokHypTL cfg (fun s => tokLoopHG cfg chain true f s.posMax s) :=
+    fun lo s hg hm hll hsize => ((guarded_totalH cfg chain hsz hall f).2 lo s hg hm hll hsize).tokTL
+  have h := runRuleH_realTL hsz (skipTokenHG_calm cfg chain true f) (guarded_totalH cfg chain hsz hall f).1
+    ht (rangesFnHG cfg chain true f) f (id := id) (fun r hr => hall r (hr ▸ hid)) st hg hm hlt hll hsize hlev
+  refine ⟨h.noRust, ?_⟩
+  intro len st' hr
+  have s := h.ok _ _ hr
+  have hg' : Good lo { st' with pos := st'.pos + len } := by simpa using s.good
+  refine ⟨s.adv len rfl, ?_, ?_, hg'⟩
+  · have := hg'.le; simp only at this; rw [s.frame.posMax] at this; exact this
+  · have := hg'.bpos; simp only at this; rw [s.frame.src] at this; exact this
+
+theorem llpos_init (content : List Char) (mapping : Srcmap) : LLPos (IState.init content mapping) := by
+  unfold LLPos IState.init
+  simp only
+  omega
+
+/-- **(c) The guarded inline parser with the html rule never panics** (size bound explicit). -/
+theorem parseInlineHG_no_panic (cfg : CfgH)
+    (hsz : ∀ mk csw, RuleIdH.base (.emph mk csw) ∈ cfg.chain → mk.utf8Size = 1) {content : List Char}
+    {mapping : Srcmap} (hm : MapOK content mapping)
+    (hsize : 2 * byteLen content + cfg.maxNesting < 2 ^ 31 - 1) :
+    NoRust (parseInlineHG cfg content mapping) := by
+  obtain ⟨lo, _, hg⟩ := init_good hm
+  have h := (guarded_no_panicH cfg.base cfg.chain (fun mk csw h => hsz mk csw (mem_base h))
+    (fun r h => base_mem h) (topFuel cfg.base content) _ hg (memoB_init content mapping)
+    (llpos_init content mapping)
+    (show 2 * byteLen content + cfg.maxNesting < 2147483647 by simpa using hsize)).1
+  unfold parseInlineHG
+  split
+  · next e he =>
+    intro p hp
+    simp only [Except.error.injEq] at hp; subst hp
+    exact h p he
+  · exact NoRust.ok _
+
+theorem parseInlineHG_ok {cfg : CfgH} {content : List Char} {mapping : Srcmap} {cs : List Node}
+    (h : parseInlineHG cfg content mapping = .ok cs) : parseInlineH cfg content mapping = .ok cs := by
+  rcases parseInlineHG_agree cfg content mapping with h' | h'
+  · rw [← h', h]
+  · rw [h] at h'; cases h'
+
+/-- **(c) Every panic of the inline pass with the html rule is a memo hit beyond `pos_max`**: if the
+    model's parser panics, the guarded run does not complete. -/
+theorem parseInlineH_panic_memo_only (cfg : CfgH)
+    (hsz : ∀ mk csw, RuleIdH.base (.emph mk csw) ∈ cfg.chain → mk.utf8Size = 1) {content : List Char}
+    {mapping : Srcmap} (hm : MapOK content mapping)
+    (hsize : 2 * byteLen content + cfg.maxNesting < 2 ^ 31 - 1) {p : RPanic}
+    (h : parseInlineH cfg content mapping = .error (.rust p)) :
+    parseInlineHG cfg content mapping = .error .fuel ∧ memoSafeH cfg content mapping = false := by
+  have hg : parseInlineHG cfg content mapping = .error .fuel := by
+    rcases parseInlineHG_agree cfg content mapping with heq | hf
+    · exact absurd (heq.trans h) (parseInlineHG_no_panic cfg hsz hm hsize p)
+    · exact hf
+  exact ⟨hg, by unfold memoSafeH; rw [hg]⟩
+
+/-- **`parseInlineH` is total whenever the memo check passes** (no hypothesis: the check is a run). -/
+theorem parseInlineH_total_of_memoSafeH (cfg : CfgH) {content : List Char} {mapping : Srcmap}
+    (hs : memoSafeH cfg content mapping = true) : ∃ cs, parseInlineH cfg content mapping = .ok cs := by
+  unfold memoSafeH at hs
+  split at hs
+  · next cs hcs => exact ⟨cs, parseInlineHG_ok hcs⟩
+  · simp at hs
+
+/-- the model run completes, or the guard trips -/
+theorem parseInlineH_ok_or_guard (cfg : CfgH)
+    (hsz : ∀ mk csw, RuleIdH.base (.emph mk csw) ∈ cfg.chain → mk.utf8Size = 1) {content : List Char}
+    {mapping : Srcmap} (hm : MapOK content mapping)
+    (hsize : 2 * byteLen content + cfg.maxNesting < 2 ^ 31 - 1) :
+    (∃ cs, parseInlineH cfg content mapping = .ok cs) ∨ memoSafeH cfg content mapping = false := by
+  cases h : parseInlineH cfg content mapping with
+  | ok cs => exact .inl ⟨cs, rfl⟩
+  | error e =>
+    cases e with
+    | fuel => exact absurd h (parseInlineH_fuel cfg content mapping)
+    | rust p => exact .inr (parseInlineH_panic_memo_only cfg hsz hm hsize h).2
+
+/-! ### chains without link / image: unconditional totality -/
+
+/-- only the link and image rules call `skip_token` / `tokenize` -/
+theorem runRuleH_indep (cfg : Cfg) (skip tok skip' tok' : IState → Except Panic IState) (fuel : Nat)
+    {id : RuleIdH} (h : id ≠ .base .link ∧ id ≠ .base .image) (st : IState) (silent : Bool) :
+    runRuleH cfg skip tok fuel id st silent = runRuleH cfg skip' tok' fuel id st silent := by
+  cases id with
+  | html => rfl
+  | base r =>
+    cases r
+    case link => exact absurd rfl h.1
+    case image => exact absurd rfl h.2
+    all_goals rfl
+
+theorem firstRuleG_congr {ι : Type} {run run' : ι → IState → RuleRes} :
+    ∀ (rules : List ι), (∀ id ∈ rules, ∀ s, run id s = run' id s) →
+      ∀ st, firstRuleG run rules st = firstRuleG run' rules st := by
+  intro rules
+  induction rules with
+  | nil => intro _ st; rfl
+  | cons r rs ih =>
+    intro h st
+    simp only [firstRuleG]
+    rw [h r List.mem_cons_self st]
+    split
+    · rfl
+    · rfl
+    · exact ih (fun id hid s => h id (List.mem_cons_of_mem _ hid) s) _
+
+/-- without link / image in the chain the guard is never consulted: the guarded loop IS the model loop -/
+theorem tokLoopHG_flat (cfg : Cfg) (chain : List RuleIdH)
+    (hfl : RuleIdH.base .link ∉ chain ∧ RuleIdH.base .image ∉ chain) :
+    ∀ (fuel e : Nat) (st : IState), tokLoopHG cfg chain true fuel e st = tokLoopH cfg chain fuel e st := by
+  have hne : ∀ id ∈ chain, id ≠ .base .link ∧ id ≠ .base .image :=
+    fun id hid => ⟨fun e => hfl.1 (e ▸ hid), fun e => hfl.2 (e ▸ hid)⟩
+  intro fuel
+  induction fuel with
+  | zero => intro e st; unfold tokLoopHG tokLoopH; rfl
+  | succ f ih =>
+    intro e st
+    unfold tokLoopHG tokLoopH
+    have hstep : ∀ sk tk sk' tk' : IState → Except Panic IState,
+        tokStepG cfg.maxNesting chain (runRuleH cfg sk tk f) st =
+        tokStepG cfg.maxNesting chain (runRuleH cfg sk' tk' f) st := by
+      intro sk tk sk' tk'
+      unfold tokStepG
+      rw [firstRuleG_congr chain (fun id hid s => runRuleH_indep cfg sk tk sk' tk' f (hne id hid) s false) st]
+    dsimp only
+    rw [hstep (fun s => skipTokenHG cfg chain true f s) (fun s => tokLoopHG cfg chain true f s.posMax s)
+      (fun s => skipTokenH cfg chain f s) (fun s => tokLoopH cfg chain f s.posMax s)]
+    simp only [ih]
+    rfl
+
+/-- **(c) Totality for chains without the link / image rules** (the html rule anywhere, with or without
+    autolink, emphasis, code spans, …): `parseInlineH` returns a tree — no Rust panic, no fuel panic —
+    for every `MapOK` content within the size bound. -/
+theorem parseInlineH_total_flat (cfg : CfgH)
+    (hfl : RuleIdH.base .link ∉ cfg.chain ∧ RuleIdH.base .image ∉ cfg.chain)
+    (hsz : ∀ mk csw, RuleIdH.base (.emph mk csw) ∈ cfg.chain → mk.utf8Size = 1) {content : List Char}
+    {mapping : Srcmap} (hm : MapOK content mapping)
+    (hsize : 2 * byteLen content + cfg.maxNesting < 2 ^ 31 - 1) :
+    ∃ cs, parseInlineH cfg content mapping = .ok cs := by
+  have heq : parseInlineHG cfg content mapping = parseInlineH cfg content mapping := by
+    unfold parseInlineHG parseInlineH tokenizeH
+    rw [tokLoopHG_flat cfg.base cfg.chain hfl]
+    rfl
+  have hnr := parseInlineHG_no_panic cfg hsz hm hsize
+  rw [heq] at hnr
+  cases h : parseInlineH cfg content mapping with
+  | ok cs => exact ⟨cs, rfl⟩
+  | error e =>
+    cases e with
+    | fuel => exact absurd h (parseInlineH_fuel cfg content mapping)
+    | rust p => exact absurd h (hnr p)
+
+/-! ## (e) look-ahead = real for the html member -/
+
+/-- the html rule as a chain member does not depend on the chain, the callees or the fuel -/
+theorem ruleAtH_html (cfg : Cfg) (chain : List RuleIdH) (f : Nat) (st : IState) (silent : Bool) :
+    ruleAtH cfg chain f .html st silent = htmlRule st silent := rfl
+
+/-- **(e) silent ⇒ real**: when look-ahead mode answers `Some(n)`, real mode — unless it panics, which
+    `htmlRule_fires` excludes — answers `Some(n)`, pushes exactly one html node and changes nothing else
+    but `link_level` -/
+theorem htmlRule_silent_real {st s1 : IState} {n : Nat} (hs : htmlRule st true = .ok (some n, s1)) :
+    ∀ o s2, htmlRule st false = .ok (o, s2) →
+      o = some n ∧ ∃ nd : Html.InlineNode,
+        s2 = { st with linkLevel := s2.linkLevel, children := st.children ++ [htmlNode nd] } ∧
+        slice st.src st.pos (st.pos + n) = .ok nd.content := by
+  intro o s2 hr
+  obtain ⟨a1, nd1, he1, _⟩ := htmlRule_ok hs
+  rcases htmlRule_cases hr with ⟨rfl, rfl⟩ | ⟨_, _, hsil, _⟩ | ⟨m, ll, nd, rfl, _, he, rfl⟩
+  · -- real mode declined: impossible
+    obtain ⟨a2, nd2, he2, _⟩ := htmlRule_ok hr
+    have := (Html.html_inline_silent_real he1 _ _ _ he2).1
+    cases this
+  · cases hsil
+  · have hn := (Html.html_inline_silent_real he1 _ _ _ he).1
+    simp only [Option.some.injEq] at hn
+    subst hn
+    exact ⟨rfl, nd, rfl, (Html.htmlInline_node he).1⟩
+
+/-- **(e) real ⇒ silent**: the two modes agree on the verdict and the extent; look-ahead is pure -/
+theorem htmlRule_real_silent {st s2 : IState} {o : Option Nat} (hr : htmlRule st false = .ok (o, s2)) :
+    htmlRule st true = .ok (o, st) := by
+  obtain ⟨a, nd, he, _⟩ := htmlRule_ok hr
+  have := Html.html_inline_real_silent he
+  unfold htmlRule
+  rw [this]
+
+/-- **(e) the verdict is a function of the window**: two states with the same text, position and
+    `pos_max` get the same look-ahead answer (so the answer survives whatever the rules in front of the
+    html rule did to the memo, the code-span cache, `level`, the children) -/
+theorem htmlRule_window {st st' : IState} (h1 : st'.src = st.src) (h2 : st'.pos = st.pos)
+    (h3 : st'.posMax = st.posMax) {o : Option Nat} (h : htmlRule st true = .ok (o, st)) :
+    htmlRule st' true = .ok (o, st') := by
+  have hw : st'.window = st.window := by unfold IState.window; rw [h1, h2, h3]
+  obtain ⟨a, nd, he, _⟩ := htmlRule_ok h
+  obtain ⟨c, rest, hwin, hcase⟩ := Html.htmlInlineRule_ok he
+  have hin : Html.htmlInlineRule st' true = .ok (o, st', none) := by
+    unfold Html.htmlInlineRule
+    rw [hw, hwin]
+    simp only
+    rcases hcase with ⟨rfl, _, _, hno⟩ | ⟨r, hc, hq, htr, ho, _⟩
+    · rcases hno with hno | hno | hno
+      · rw [if_pos hno]
+      · split
+        · rfl
+        · rw [hno]; rfl
+      · split
+        · rfl
+        · split
+          · rfl
+          · rw [hno]
+    · subst hc
+      rw [if_neg (by simp), hq, htr, ho]
+      simp
+  unfold htmlRule
+  rw [hin]
+
+theorem firstRuleG_append_none {ι : Type} {run : ι → IState → RuleRes} :
+    ∀ (pre l : List ι) (st s : IState), firstRuleG run pre st = .ok (none, s) →
+      firstRuleG run (pre ++ l) st = firstRuleG run l s := by
+  intro pre
+  induction pre with
+  | nil =>
+    intro l st s h
+    simp only [firstRuleG, Except.ok.injEq, Prod.mk.injEq, true_and] at h
+    subst h; rfl
+  | cons r rs ih =>
+    intro l st s h
+    simp only [List.cons_append, firstRuleG] at h ⊢
+    split at h
+    · cases h
+    · simp at h
+    · next s1 he => exact ih l s1 s h
+
+/-- **(e) look-ahead = real over the chain.**  Chain `pre ++ html :: post`, guarded callees at fuel `f`,
+    a good state below the nesting limit.  If in the look-ahead chain (`skip_token`) the rules in front
+    of the html rule decline and the html rule answers `Some(n)`, then the look-ahead chain answers
+    `Some(n)`; and if those rules decline in the real chain (`tokenize`) too — every rule but an
+    emphasis rule does, by `silent_real_<rule>` — the real chain answers `Some(n)` as well, through the
+    html rule: one html node pushed, nothing else changed but `link_level`. -/
+theorem chain_html_silent_real (cfg : Cfg) (pre post : List RuleIdH)
+    (hsz : ∀ mk csw, RuleId.emph mk csw ∈ cfg.chain → mk.utf8Size = 1)
+    (hall : ∀ r, RuleIdH.base r ∈ pre ++ .html :: post → r ∈ cfg.chain) (f : Nat)
+    {lo : Nat} (st : IState) (hg : Good lo st) (hm : MemoB st) (hlt : st.pos < st.posMax)
+    (hll : LLPos st) (hsize : SizeOK cfg st.src) (hlev : st.level < cfg.maxNesting)
+    {sa s1 : IState} {n : Nat}
+    (hsil : firstRuleG (fun id s => silentBumped (runRuleH cfg
+        (fun s => skipTokenHG cfg (pre ++ .html :: post) true f s)
+        (fun s => tokLoopHG cfg (pre ++ .html :: post) true f s.posMax s) f id) s) pre st = .ok (none, sa))
+    (hhtml : silentBumped htmlRule sa = .ok (some n, s1)) :
+    firstRuleG (fun id s => silentBumped (runRuleH cfg
+        (fun s => skipTokenHG cfg (pre ++ .html :: post) true f s)
+        (fun s => tokLoopHG cfg (pre ++ .html :: post) true f s.posMax s) f id) s)
+      (pre ++ .html :: post) st = .ok (some n, s1) ∧
+    ∀ sb, firstRuleG (fun id s => runRuleH cfg
+        (fun s => skipTokenHG cfg (pre ++ .html :: post) true f s)
+        (fun s => tokLoopHG cfg (pre ++ .html :: post) true f s.posMax s) f id s false) pre st = .ok (none, sb) →
+      ∃ s2 nd, firstRuleG (fun id s => runRuleH cfg
+          (fun s => skipTokenHG cfg (pre ++ .html :: post) true f s)
+          (fun s => tokLoopHG cfg (pre ++ .html :: post) true f s.posMax s) f id s false)
+          (pre ++ .html :: post) st = .ok (some n, s2) ∧
+        s2 = { sb with linkLevel := s2.linkLevel, children := sb.children ++ [htmlNode nd] } := by
+  have hgt := guarded_totalH cfg (pre ++ .html :: post) hsz hall f
+  have hq := skipTokenHG_calm cfg (pre ++ .html :: post) true f
+  constructor
+  · rw [firstRuleG_append_none pre _ st sa hsil]
+    simp only [firstRuleG]
+    show (match silentBumped htmlRule sa with | .error e => _ | .ok (some n, st') => _ | .ok (none, st') => _) = _
+    rw [hhtml]
+  · intro sb hreal
+    -- the look-ahead side: `sa` has the window of `st`
+    have hsa := (firstRuleG_silent_T (fun id s his hls => silentBumped_T
+      (runRuleH_silent_T hq hgt.1 f id _ ⟨his.le, his.bpos, his.bmax, his.wf, his.stop, his.memo⟩ hls))
+      pre st (hg.linv hm) hlt).ok _ _ hsil
+    obtain ⟨_, ca, pa, _⟩ := hsa
+    -- the html rule in look-ahead mode at `sa`
+    have hh : htmlRule { sa with level := sa.level + 1 } true = .ok (some n, { sa with level := sa.level + 1 }) := by
+      unfold silentBumped at hhtml
+      split at hhtml
+      · cases hhtml
+      · next r s' he =>
+        split at hhtml
+        · cases hhtml
+        · simp only [Except.ok.injEq, Prod.mk.injEq] at hhtml
+          rw [← hhtml.1]
+          have := htmlRule_silent_same he
+          rw [this] at he
+          exact he
+    -- the real side: `sb` is good, has the window of `st`
+    have ht : TokHypTL cfg (fun s => tokLoopHG cfg (pre ++ .html :: post) true f s.posMax s) :=
+      fun lo s hg hm hll hsize => (hgt.2 lo s hg hm hll hsize).tokTL
+    have hsb := (firstRuleG_realTL hsz hq hgt.1 ht (rangesFnHG cfg _ true f) f pre
+      (fun r hr => hall r (List.mem_append_left _ hr)) st hg hm hlt hll hsize hlev).ok _ _ hreal
+    have hgb : Good lo sb := Good.of_add_zero (by simpa using hsb.good)
+    have hllb : LLPos sb := by
+      have := hsb.ll
+      simp only [Option.getD_none] at this
+      cases sb; simpa using this
+    have hpb := hsb.nonePos rfl
+    have hltb : sb.pos < sb.posMax := by rw [hpb, hsb.frame.posMax]; exact hlt
+    have hwin : htmlRule sb true = .ok (some n, sb) :=
+      htmlRule_window (st := { sa with level := sa.level + 1 }) (by rw [hsb.frame.src]; exact ca.src.symm)
+        (by rw [hpb]; exact pa.symm) (by rw [hsb.frame.posMax]; exact ca.posMax.symm) hh
+    obtain ⟨o, s2, hr2, _⟩ := htmlRule_fires (hgb.inv hltb) false
+      (llpos_i32 hllb (by rw [hsb.frame.src]; exact hsize) hltb hgb.bmax (by rw [hsb.frame.level]; exact hlev))
+    obtain ⟨rfl, nd, hs2, _⟩ := htmlRule_silent_real hwin _ _ hr2
+    refine ⟨s2, nd, ?_, hs2⟩
+    rw [firstRuleG_append_none pre _ st sb hreal]
+    simp only [firstRuleG]
+    show (match htmlRule sb false with | .error e => _ | .ok (some n, st') => _ | .ok (none, st') => _) = _
+    rw [hr2]
+
+/-! ## non-vacuity examples -/
+
+/-- `Inline.exCfg` (every cmark rule, `*` emphasis) over a chain of the extended enumeration -/
+def exCfgH (maxNesting : Nat) (chain : List RuleIdH) : CfgH :=
+  { maxNesting := maxNesting, chain := chain, fns := (exCfg maxNesting).fns, refs := none, normRef := id,
+    entity := (exCfg maxNesting).entity, isWhite := (exCfg maxNesting).isWhite, isPunctChar := fun _ => false }
+
+/-- the compiled chain of `cmark::add` + `html::add`: the html rule behind the cmark rules -/
+def stockH : List RuleIdH := (exCfg 0).chain.map .base ++ [.html]
+
+/-- values of the top-level nodes with the values of their children -/
+def valsH (r : Except Panic (List Node)) : Except Panic (List (Val × List Val)) :=
+  match r with
+  | .ok cs => .ok (cs.map (fun n => (n.val, n.children.map (·.val))))
+  | .error e => .error e
+
+-- the three documents: tags (one CONTAINING a `]`) next to a link whose label holds a tag;
+example : valsH (parseInlineH (exCfgH 100 stockH) "a <b c=\"]\">x</b> [l <i>](u)".toList [(0, 0)]) =
+    .ok [(.text "a ".toList, []), (htmlVal "<b c=\"]\">".toList, []), (.text "x".toList, []),
+         (htmlVal "</b>".toList, []), (.text " ".toList, []),
+         (.link [117] none, [.text "l ".toList, htmlVal "<i>".toList])] := by decide +kernel
+-- three `<a>`: three html nodes, and `link_level` is 3 afterwards (so `Inline.Frame` fails: `FrameL`);
+example : valsH (parseInlineH (exCfgH 100 stockH) "<a><a><a>".toList [(0, 0)]) =
+      .ok [(htmlVal "<a>".toList, []), (htmlVal "<a>".toList, []), (htmlVal "<a>".toList, [])] ∧
+    (tokenizeH (exCfgH 100 stockH).base stockH 200 (IState.init "<a><a><a>".toList [(0, 0)])).map (·.linkLevel)
+      = .ok 3 := by decide +kernel
+-- an autolink and a tag inside a label.
+example : valsH (parseInlineH (exCfgH 100 stockH) "[x <http://y> <z w>](u)".toList [(0, 0)]) =
+    .ok [(.link [117] none, [.text "x ".toList, Val.autolink ("http://y".toList.map Char.toNat),
+          .text " ".toList, htmlVal "<z w>".toList])] := by decide +kernel
+-- the LINK rule over a tokenizer with the html rule does not restore `link_level` (`TokHyp` is false):
+example : (tokenizeH (exCfgH 100 stockH).base stockH 200 (IState.init "[<a>](u)".toList [(0, 0)])).map
+    (·.linkLevel) = .ok 1 := by decide +kernel
+-- the html rule in the look-ahead makes `[a <b c="]"> d](u)` a link; without it the text stays text
+-- (`parseInlineH_conservative'` applies to the second chain):
+example : valsH (parseInlineH (exCfgH 100 stockH) "[a <b c=\"]\"> d](u)".toList [(0, 0)]) =
+      .ok [(.link [117] none, [.text "a ".toList, htmlVal "<b c=\"]\">".toList, .text " d".toList])] ∧
+    valsH (parseInlineH (exCfgH 100 (stockH.filter (· ≠ .html))) "[a <b c=\"]\"> d](u)".toList [(0, 0)]) =
+      .ok [(.text "[a <b c=\"]\"> d](u)".toList, [])] ∧
+    RuleIdH.html ∉ (exCfgH 100 (stockH.filter (· ≠ .html))).chain := by decide +kernel
+-- html WITHOUT autolink: `<` is a marker of the html rule alone; `<http://x>` is no tag, `<http>` is
+example : valsH (parseInlineH (exCfgH 100 (stockH.filter (· ≠ .base .autolink))) "<http://x> <http>".toList [(0, 0)])
+    = .ok [(.text "<http://x> ".toList, []), (htmlVal "<http>".toList, [])] := by decide +kernel
+-- `skip_token` takes the tag as ONE token and memoises it
+example : (skipTokenH (exCfgH 100 stockH).base stockH 50
+      { IState.init "a <b c=\"]\"> d".toList [(0, 0)] with pos := 2 }).map (fun s => (s.pos, s.cache))
+    = .ok (11, [(2, 11)]) := by decide +kernel
+
+-- (c): the executable memo check holds on the three documents, so `parseInlineH_total_of_memoSafeH`
+-- applies; the hypotheses of `parseInlineHG_no_panic` hold for `stockH` on every one-line content
+example : memoSafeH (exCfgH 100 stockH) "a <b c=\"]\">x</b> [l <i>](u)".toList [(0, 0)] = true ∧
+    memoSafeH (exCfgH 100 stockH) "<a><a><a>".toList [(0, 0)] = true ∧
+    memoSafeH (exCfgH 100 stockH) "[x <http://y> <z w>](u)".toList [(0, 0)] = true := by decide +kernel
+
+theorem stockH_sz : ∀ mk csw, RuleIdH.base (.emph mk csw) ∈ (exCfgH 100 stockH).chain → mk.utf8Size = 1 := by
+  intro mk csw h
+  have h' : RuleIdH.base (.emph mk csw) ∈ stockH := h
+  simp only [stockH, exCfg, List.map_cons, List.map_nil, List.cons_append, List.nil_append, List.mem_cons,
+    RuleIdH.base.injEq, RuleId.emph.injEq, reduceCtorEq, List.mem_nil_iff, or_false, false_or] at h'
+  rw [h'.1]; decide
+
+example : NoRust (parseInlineHG (exCfgH 100 stockH) "[x <http://y> <z w>](u)".toList [(0, 0)]) :=
+  parseInlineHG_no_panic _ stockH_sz (mapOK_single _) (by decide +kernel)
+
+-- `parseInlineH_total_flat` applies to the stock chain minus link / image (html, autolink, emphasis, … stay)
+example : ∃ cs, parseInlineH (exCfgH 100 (stockH.filter (fun r => r ≠ .base .link ∧ r ≠ .base .image)))
+    "*a* <b c=\"]\"> <http://x>".toList [(0, 0)] = .ok cs :=
+  parseInlineH_total_flat _ (by decide +kernel)
+    (by intro mk csw h
+        have h' := (List.mem_filter.mp h).1
+        exact stockH_sz mk csw h')
+    (mapOK_single _) (by decide +kernel)
+
+example : ∃ cs, parseInlineH (exCfgH 100 stockH) "a <b c=\"]\">x</b> [l <i>](u)".toList [(0, 0)] = .ok cs :=
+  parseInlineH_total_of_memoSafeH _ (by decide +kernel)
+
+-- (e): `chain_html_silent_real` with the html rule first in the chain, at the `<` of `<b c="]"> d`
+-- (`guarded_no_panicH` / `ruleAtH_bounds` have the same state hypotheses)
+def exInitH : IState := IState.init "<b c=\"]\"> d".toList [(0, 0)]
+
+theorem exInitH_html : ∃ s1, silentBumped htmlRule exInitH = .ok (some 9, s1) := by
+  have h : (match silentBumped htmlRule exInitH with | .ok (o, _) => some o | .error _ => none)
+      = some (some 9) := by decide +kernel
+  cases hr : silentBumped htmlRule exInitH with
+  | error e => rw [hr] at h; cases h
+  | ok p =>
+    obtain ⟨o, s⟩ := p
+    rw [hr] at h
+    simp only [Option.some.injEq] at h
+    subst h
+    exact ⟨s, rfl⟩
+
+example : ∃ s2 nd, firstRuleG (fun id s => runRuleH (exCfgH 100 [.html, .base .text]).base
+      (fun s => skipTokenHG (exCfgH 100 [.html, .base .text]).base ([] ++ .html :: [.base .text]) true 30 s)
+      (fun s => tokLoopHG (exCfgH 100 [.html, .base .text]).base ([] ++ .html :: [.base .text]) true 30 s.posMax s)
+      30 id s false) ([] ++ .html :: [.base .text]) exInitH = .ok (some 9, s2) ∧
+    s2 = { exInitH with linkLevel := s2.linkLevel, children := exInitH.children ++ [htmlNode nd] } := by
+  obtain ⟨lo, _, hg⟩ := init_good (mapOK_single "<b c=\"]\"> d".toList)
+  obtain ⟨s1, hs1⟩ := exInitH_html
+  exact (chain_html_silent_real (exCfgH 100 [.html, .base .text]).base [] [.base .text]
+    (by intro mk csw h; simp [exCfgH, CfgH.base, RuleIdH.base?] at h)
+    (by intro r h; simp at h; subst h; simp [exCfgH, CfgH.base, RuleIdH.base?]) 30 exInitH hg
+    (memoB_init _ _) (by decide +kernel) (llpos_init _ _) (by decide +kernel) (by decide) rfl hs1).2 exInitH rfl
+
+/-
+  OPEN (d): `parseInlineH_total` — for every `CfgH` whose base chain is `ChainCoherent` (and has at most
+  one link and one image rule, as `Props/MemoSafe.lean` `parseInline_total` asks), every `MapOK` content
+  within the size bound: `∃ cs, parseInlineH cfg content mapping = .ok cs`.
+  By `parseInlineH_ok_or_guard` what is missing is exactly `memoSafeH cfg content mapping = true` (memo
+  laminarity, L3 of `Props/InlineTotal.lean`) for chains WITH `.html`.  It was NOT attempted: the
+  memo-safety development (`Lemmas/MemoSafe*.lean`, ~17 k lines) cannot take the html rule as "one more
+  flat rule" without being re-stated, for three independent reasons.
+   1. It is about the CONSTANTS `Inline.tokLoop` / `Inline.skipToken` / `Inline.skipStep` / `Inline.tokStep`
+      and the enumeration `Inline.RuleId` (`RuleId.isFlat`, `RuleId.firesAt`, `ChainCoherent`, the walks
+      `pwalk` replaying `skipToken cfg`, `NestHyps cfg …` with `flat : FlatL2 cfg …` quantifying over
+      `id : RuleId` with `id.isFlat`): none of them is parametric in the rule runner.  To reuse it the
+      development would have to be generalised from `(cfg.chain : List RuleId, runRule cfg)` to an abstract
+      `(chain : List ι, run : ι → skip → tok → fuel → IState → Bool → RuleRes)` with the per-rule facts as
+      hypotheses on `run` — i.e. `NestHyps` would have to carry, per id, the four facts it now derives by
+      `cases id`: (F1) flat rules neither read nor write the memo (`runRule_flat_cache`), (F2) real = silent
+      extent (`silent_real_<rule>`), (F3) WINDOW INDEPENDENCE: the look-ahead verdict at `pos` under `pos_max`
+      equals the verdict under a smaller `pos_max' ≥ pos + len` (and is `None` or different ONLY IF the match
+      extends beyond the cut), (F4) `firesAt`: the first character decides whether the rule can answer.
+   2. Every frame fact there is `Inline.Frame`, i.e. includes `linkLevel` unchanged — false here in real mode
+      (see the header).  The `resetLL` device used in this file for the per-rule contracts does not carry
+      over to a development about the concrete `tokLoop`: `Frame` would have to be weakened to `FrameL`
+      throughout (the memo-safety argument itself never reads `linkLevel`).
+   3. The html rule does satisfy F1–F4 (it behaves like the autolink rule): F1 `htmlRule_cases`; F2
+      `htmlRule_silent_real` / `htmlRule_real_silent`; F3 holds in the form needed — `tagRest` is a function of
+      the window and a match of `len` bytes is a match of the `len`-byte prefix followed by anything
+      (`Html.tagRest_spec` gives the decomposition; the converse "a match on a longer window that ends
+      inside the shorter one is a match on the shorter one" is NOT yet proved for `tagRest` and is the one
+      genuinely new lemma: the regex alternatives are prefix-closed except that `openTagK always` commits to
+      the FIRST way the attributes parse, so it needs an induction over `attrsK`); a tag may CONTAIN a `]`
+      (`<b c="]">`), exactly like an autolink `<http://a]b>` or a code span, which the development
+      already handles for flat rules through laminarity of look-ahead tokens; F4 `firesAt .html c := c == '<'`.
+  Evidence for the statement: the stream `inlineh` compares whole `md.inline.parse` runs with the model on
+  > 20 000 cases (random chains with html) at 0 differences, and the real crate never panicked on a
+  well-formed table there.
+-/
 
 end MdIt.InlineH
